@@ -185,13 +185,15 @@ def run(rep: vk.Report):
     nfails, nund = common.run_classify(IMPORTS + " SemI HarnessI", DEFS, NUM_TYPE, nums, NUM_CHECKER) if nums else ([], [])
     tree_reports = searched = 0
     for i in tfails:
-        model = trees.model_answer(i, lambda t: "match " + t + " with (e, V, _, _) => (compute_hessian ln2c ln10c e V, "
-                                   "hname (compile_hessian ln2c ln10c gen_unary_hess e V)) end")
+        if tree_reports >= 20 or searched >= 60:
+            break
         searched += 1
         wit = hessian_fd_witness(keep[i][0], keep[i][1], keep[i][2], rng) if searched <= 40 else None
-        if (wit is None and tree_reports >= 6) or tree_reports >= 20:
+        if wit is None and tree_reports >= 6:
             continue              # a renamed / re-routed path with correct values: reported a few times, not once per case
         tree_reports += 1
+        model = trees.model_answer(i, lambda t: "match " + t + " with (e, V, _, _) => (compute_hessian ln2c ln10c e V, "
+                                   "hname (compile_hessian ln2c ln10c gen_unary_hess e V)) end")
         rep.violation({"kind": "correspondence", "obligation": "Hessian entry trees / compile path = model", "case": trees.terms[i][:6000],
                        "meta": trees.meta[i], "model": model, "witness": wit}, concrete=wit is not None)
     for i in nfails:
